@@ -41,4 +41,21 @@ static size_t h_setup_buffers(void)
         h_obj.desc = &h_desc;
         return cap;
 }
+/* the current variable: storage object of exactly data_size bytes (so any access past it is caught) */
+static struct cat_variable h_var;
+static void h_setup_var(cat_var_type type)
+{
+        size_t ds = nondet_size();
+        __CPROVER_assume(ds >= 1 && ds <= 64);
+        h_var.type = type;
+        h_var.data = malloc(ds);
+        __CPROVER_assume(h_var.data != NULL);
+        h_var.data_size = ds;
+        int acc = nondet_int();
+        __CPROVER_assume(acc >= 0 && acc <= 2);
+        h_var.access = (cat_var_access)acc;
+        h_obj.var = &h_var;
+        g_j = nondet_size();
+        if (g_j < ds) g_oldbyte = ((uint8_t *)h_var.data)[g_j];
+}
 #endif
